@@ -279,3 +279,75 @@ Definition g_recur_safe_anchor {DT : Type} {DATE : Type} {TD : Type} (self_freq 
           RSkip
         else
           (RDone start_dt).
+
+(* calgebra/cache.py: CachedTimeline._purge_sink *)
+Definition g_cache_purge_sink (self_sink : list ivl) (start : Z) (end_ : Z) : (list ivl) :=
+  let affected := (fetch_static self_sink (Some start) (Some end_) false) in
+  iter_for
+    (fun self_sink ivl_ =>
+      let self_sink := (sl_remove ivl_ self_sink) in
+      let self_sink :=
+        if ((negb (is_none (st ivl_))) && ((ozd (st ivl_)) <? start)) then
+          let left_ := (set_span ivl_ (st ivl_) (Some start)) in
+          let self_sink := (sl_add left_ self_sink) in
+          self_sink
+        else
+          self_sink in
+      if ((negb (is_none (en ivl_))) && ((ozd (en ivl_)) >? end_)) then
+        let right_ := (set_span ivl_ (Some end_) (en ivl_)) in
+        let self_sink := (sl_add right_ self_sink) in
+        (SCont self_sink)
+      else
+        (SCont self_sink))
+    (fun self_sink =>
+      self_sink)
+    self_sink affected.
+
+(* calgebra/cache.py: CachedTimeline._fill_gap *)
+Definition g_cache_fill_gap_clip {KEYS : Type} (self_sink : list ivl) (self_key_validated : bool) (self_key_fields : option KEYS) (source_fetch : option Z -> option Z -> bool -> list ivl) (gap_start : Z) (gap_end : Z) : (list ivl * bool) :=
+  iter_for
+    (fun '(self_sink, self_key_validated) ivl_ =>
+      let self_key_validated :=
+        if ((negb self_key_validated) && (negb (is_none self_key_fields))) then
+          let self_key_validated := true in
+          self_key_validated
+        else
+          self_key_validated in
+      let clipped_start := (st ivl_) in
+      let clipped_end := (en ivl_) in
+      let clipped_start :=
+        if ((is_none (st ivl_)) || ((ozd (st ivl_)) <? gap_start)) then
+          let clipped_start := gap_start in
+          (Some clipped_start)
+        else
+          clipped_start in
+      let clipped_end :=
+        if ((is_none (en ivl_)) || ((ozd (en ivl_)) >? gap_end)) then
+          let clipped_end := gap_end in
+          (Some clipped_end)
+        else
+          clipped_end in
+      if ((negb (is_none clipped_start)) && (negb (is_none clipped_end))) then
+        if ((ozd clipped_start) >=? (ozd clipped_end)) then
+          (SCont (self_sink, self_key_validated))
+        else
+          let ivl_ :=
+            if ((negb (oZ_eqb clipped_start (st ivl_))) || (negb (oZ_eqb clipped_end (en ivl_)))) then
+              let ivl_ := (set_span ivl_ clipped_start clipped_end) in
+              ivl_
+            else
+              ivl_ in
+          let self_sink := (sl_add ivl_ self_sink) in
+          (SCont (self_sink, self_key_validated))
+      else
+        let ivl_ :=
+          if ((negb (oZ_eqb clipped_start (st ivl_))) || (negb (oZ_eqb clipped_end (en ivl_)))) then
+            let ivl_ := (set_span ivl_ clipped_start clipped_end) in
+            ivl_
+          else
+            ivl_ in
+        let self_sink := (sl_add ivl_ self_sink) in
+        (SCont (self_sink, self_key_validated)))
+    (fun '(self_sink, self_key_validated) =>
+      (self_sink, self_key_validated))
+    (self_sink, self_key_validated) (source_fetch (Some gap_start) (Some gap_end) false).
